@@ -35,11 +35,19 @@ Monitors (all observe real executions of core.REPO):
      never-sampled object: draw, then logd at fixed points, the object's parameter arrays, the
      caller's arrays (bitwise, also at the end of the case) and a second draw from the same
      generator state must be unchanged.
+ (h) dimension known only after conditioning: a location / scale parameter is a callable of conditioning
+     variables, all other parameters are scalars, no geometry; conditioned (one step / two steps, keyword /
+     positional, vector first or last) on vectors of length 1, 2, 5, 80.  The conditioned object must report
+     that dimension, draw exactly like the directly built distribution under the same generator state, have
+     logd equal to the no-cuqi reference of the fully specified distribution, and pass (a) (covariance incl.
+     off-diagonals, also against the direct object's affine map) or (e); forms whose dimension can never be
+     inferred must refuse consistently.
 """
 import math
 import numpy as np
 from vlib import core
 from vlib.refs import c05_laws as L
+from vlib.refs import c04_densities as C4
 from vlib.rngscript import Scripted, ScriptedRNG
 from vlib.contracts import ensure, ContractLog
 
@@ -63,12 +71,14 @@ REQUIRED_COUNTERS = {
               "rng_reproducible_checked": 100, "global_state_checked": 100, "draws_distinct_checked": 100, "wrapper_shape_checked": 300,
               "ks_tests": 20, "moment_tests": 35, "independence_tests": 30, "conditional_refusal_checked": 15, "mhn_regime_draws": 150000,
               "history_reassign_checked": 90, "global_branch_checked": 8, "first_draw_history_checked": 120,
-              "density_after_draw_checked": 240, "parameters_after_draw_checked": 450, "caller_arrays_checked": 500},
+              "density_after_draw_checked": 240, "parameters_after_draw_checked": 450, "caller_arrays_checked": 500,
+              "latedim_conditioned_checked": 60, "latedim_logpdf_ref_checked": 180, "latedim_cov_offdiag_checked": 20, "latedim_refusals_checked": 3},
     "thorough": {"affine_map_read": 580, "cov_vs_logd_hessian_checked": 380, "mode_checked": 380, "stream_replay_checked": 1700,
                  "rng_reproducible_checked": 210, "global_state_checked": 200, "draws_distinct_checked": 200, "wrapper_shape_checked": 620,
                  "ks_tests": 45, "moment_tests": 75, "independence_tests": 60, "conditional_refusal_checked": 15, "mhn_regime_draws": 4000000,
                  "history_reassign_checked": 200, "global_branch_checked": 15, "first_draw_history_checked": 250,
-                 "density_after_draw_checked": 500, "parameters_after_draw_checked": 900, "caller_arrays_checked": 1000}}
+                 "density_after_draw_checked": 500, "parameters_after_draw_checked": 900, "caller_arrays_checked": 1000,
+                 "latedim_conditioned_checked": 150, "latedim_logpdf_ref_checked": 450, "latedim_cov_offdiag_checked": 50, "latedim_refusals_checked": 3}}
 BUDGET_S = {"quick": 240.0, "thorough": 2400.0}
 
 P_STAT = 1e-7
@@ -178,13 +188,35 @@ def cases(tier, seed):
                 "Laplace_scale_callable", "Uniform_low_none", "Cauchy_scale_none", "GMRF_prec_callable", "GMRF_mean_none",
                 "Lognormal_mean_callable"):
         out.append({"kind": "cond", "which": fam})
+    # ---- dimension known only after conditioning: a location / scale parameter is a callable of conditioning variables,
+    #      every other parameter a scalar, NO geometry; conditioned on vectors of length 1, 2, 5 and beyond the sparse switch
+    j = 0
+    for fam, param, form in _LATE:
+        for n in _LATE_LENGTHS:
+            modes = _LATE_MODES if tier == "thorough" else (_LATE_MODES[j % len(_LATE_MODES)], _LATE_MODES[(j + 2) % len(_LATE_MODES)])
+            if fam in ("GMRF",) or param == "mean+matrix":
+                modes = modes[:1]
+            for mode in modes:
+                c = {"kind": "latedim", "family": fam, "param": param, "len": n, "mode": mode}
+                if form:
+                    c["form"] = form
+                out.append(c)
+            j += 1
     # ---- user defined
     for n in (1, 3):
         out.append({"kind": "userdef", "n": n})
     return out
 
+_LATE = [("Gaussian", "mean", "cov"), ("Gaussian", "mean", "prec"), ("Gaussian", "mean", "sqrtcov"), ("Gaussian", "mean", "sqrtprec"),
+         ("Gaussian", "mean+matrix", "cov"), ("Lognormal", "mean", None), ("Normal", "mean", None), ("Normal", "std", None),
+         ("Gamma", "shape", None), ("Gamma", "rate", None), ("InverseGamma", "location", None), ("InverseGamma", "scale", None),
+         ("InverseGamma", "shape", None), ("Beta", "alpha", None), ("Beta", "beta", None), ("Laplace", "location", None),
+         ("Uniform", "low", None), ("Uniform", "high", None), ("Cauchy", "location", None), ("Cauchy", "scale", None), ("GMRF", "mean", None)]
+_LATE_LENGTHS = (1, 2, 5, 80)
+_LATE_MODES = ("kw1", "pos1", "kw2", "mixed2", "kw_both")
+
 def crash_config(case):
-    return {k: case[k] for k in ("kind", "form", "shape", "storage", "dimclass", "scale", "layout", "bc", "order", "pd", "family", "variant", "regime", "which") if k in case}
+    return {k: case[k] for k in ("kind", "form", "shape", "storage", "dimclass", "scale", "layout", "bc", "order", "pd", "family", "variant", "regime", "which", "param", "mode", "len") if k in case}
 
 _cfg = crash_config
 
@@ -1184,6 +1216,205 @@ def _run_cond(case, ctx, cuqi, rs):
             ctx.violation("conditioned_sampler_differs", cfg, detail=f"sample({N}) after conditioning differs from the directly constructed distribution under the same generator state")
     ctx.nontrivial()
 
+# =========================================================================== dimension known only after conditioning
+
+def _late_spec(fam, param, form, n, rs):
+    """Scalar parameters, the final value of the callable parameter (a vector of length n), how it is split into two
+    conditioning variables, the support, and the reference log-density (vlib.refs.c04_densities, no cuqi)."""
+    u = rs.uniform
+    loc = lambda: u(-2.0, 2.0, n)
+    pos = lambda a=0.4, b=2.5: u(a, b, n)
+    inf = np.inf
+    if fam == "Gaussian":
+        sv = float(u(0.5, 3.0))
+        vec = loc()
+        cov = C4.gaussian_cov_from(form, sv, n, convention="code")
+        return {"fixed": {form: sv}, "vec": vec, "additive": True, "lo": np.full(n, -inf), "hi": np.full(n, inf), "mom": True,
+                "ref": lambda x: C4.gaussian_logpdf(x, vec, cov=cov), "gauss": "id"}
+    if fam == "Lognormal":
+        sv = float(u(0.05, 0.5)); vec = u(-1.0, 1.0, n)
+        return {"fixed": {"cov": sv}, "vec": vec, "additive": True, "lo": np.zeros(n), "hi": np.full(n, inf), "mom": False,
+                "ref": lambda x: C4.lognormal_logpdf(x, vec, sv), "gauss": "log"}
+    table = {
+        ("Normal", "mean"): ({"std": float(u(0.3, 3.0))}, loc, True, (-inf, inf), True),
+        ("Normal", "std"): ({"mean": float(u(-2, 2))}, pos, False, (-inf, inf), True),
+        ("Gamma", "shape"): ({"rate": float(u(0.3, 3.0))}, lambda: pos(1.2, 6.0), False, (0.0, inf), True),
+        ("Gamma", "rate"): ({"shape": float(u(1.5, 5.0))}, pos, False, (0.0, inf), True),
+        ("InverseGamma", "location"): ({"shape": float(u(2.5, 5.0)), "scale": float(u(0.5, 2.0))}, loc, True, None, False),
+        ("InverseGamma", "scale"): ({"shape": float(u(2.5, 5.0)), "location": float(u(-1, 1))}, pos, False, None, False),
+        ("InverseGamma", "shape"): ({"location": float(u(-1, 1)), "scale": float(u(0.5, 2.0))}, lambda: pos(2.5, 6.0), False, None, False),
+        ("Beta", "alpha"): ({"beta": float(u(1.5, 4.0))}, lambda: pos(1.2, 5.0), False, (0.0, 1.0), True),
+        ("Beta", "beta"): ({"alpha": float(u(1.5, 4.0))}, lambda: pos(1.2, 5.0), False, (0.0, 1.0), True),
+        ("Laplace", "location"): ({"scale": float(u(0.3, 3.0))}, loc, True, (-inf, inf), True),
+        ("Uniform", "low"): ({"high": float(u(2.5, 5.0))}, loc, True, None, True),
+        ("Uniform", "high"): ({"low": -float(u(2.5, 5.0))}, loc, True, None, True),
+        ("Cauchy", "location"): ({"scale": float(u(0.3, 3.0))}, loc, True, (-inf, inf), False),
+        ("Cauchy", "scale"): ({"location": float(u(-2, 2))}, pos, False, (-inf, inf), False),
+    }
+    fixed, gen, additive, supp, mom = table[(fam, param)]
+    vec = gen()
+    full = {**fixed, param: vec}
+    if supp is None:
+        if fam == "InverseGamma":
+            lo, hi = np.ones(n) * full["location"], np.full(n, inf)
+        else:
+            lo, hi = np.ones(n) * full["low"], np.ones(n) * full["high"]
+    else:
+        lo, hi = np.full(n, supp[0]), np.full(n, supp[1])
+    return {"fixed": fixed, "vec": vec, "additive": additive, "lo": lo, "hi": hi, "mom": mom,
+            "ref": lambda x: C4.indep_logpdf(fam, x, full), "gauss": "id" if fam == "Normal" else None}
+
+def _late_condition(ctx, cfg, d, mode, A, B):
+    """Apply the conditioning history `mode`; returns the fully conditioned distribution (or raises)."""
+    if mode == "kw1":
+        return d(a=A)
+    if mode == "pos1":
+        return d(A)
+    if mode == "kw_both":
+        return d(a=A, b=B)
+    if mode == "kw2":
+        d1 = d(b=B)
+        _refusal(ctx, cfg, d1, "partially_conditioned")
+        return d1(a=A)
+    if mode == "mixed2":
+        d1 = d(a=A)                       # the vector first: the dimension is known while b is still open
+        _refusal(ctx, cfg, d1, "partially_conditioned")
+        return d1(B)
+    raise ValueError(mode)
+
+def _run_latedim(case, ctx, cuqi, rs):
+    cfg = _cfg(case)
+    D = cuqi.distribution
+    fam, param, form, n, mode = case["family"], case["param"], case.get("form"), case["len"], case["mode"]
+    # ---- forms for which the dimension can never be inferred: a consistent refusal is fine, a value has to be right
+    if fam == "GMRF" or param == "mean+matrix":
+        def build():
+            if fam == "GMRF":
+                return D.GMRF(lambda a: a, 2.0, name="x")(a=rs.uniform(-1, 1, max(n, 2)))
+            return D.Gaussian(mean=lambda a: a, cov=lambda s: s, name="x")(s=2.0)(a=rs.uniform(-1, 1, n))
+        kind, val = core.outcome(build)
+        ctx.count("latedim_refusals_checked")
+        if kind == "refused":
+            ctx.refused("dimension not inferable", val); ctx.nontrivial()
+        elif kind == "crashed":
+            ctx.violation("crash", {**cfg, "exc": type(val).__name__}, detail=f"{val!r}")
+        else:
+            ctx.inconclusive(f"{cfg}: form is now accepted by the library; extend the check to judge it")
+        return
+    spec = _late_spec(fam, param, form, n, rs)
+    vec, fixed = spec["vec"], spec["fixed"]
+    two = mode in ("kw2", "mixed2", "kw_both")
+    if two:
+        B = float(rs.uniform(0.5, 1.5))
+        A = (vec - B) if spec["additive"] else (vec / B)
+        fn = (lambda a, b: a + b) if spec["additive"] else (lambda a, b: a * b)
+    else:
+        A, B, fn = vec, None, (lambda a: a)
+    A = _lay(A, ("C", "ro_slice")[n % 2], label="a")
+    cls = getattr(D, fam)
+    kind, d = core.outcome(lambda: cls(**{**fixed, param: fn}, name="x"))
+    if kind != "value":
+        ctx.refused("conditional constructor without geometry", d); ctx.count("latedim_refusals_checked"); ctx.nontrivial()
+        return
+    _refusal(ctx, cfg, d, "unconditioned")
+    kind, dc = core.outcome(_late_condition, ctx, cfg, d, mode, A, B)
+    if kind != "value":
+        # refusing to condition is acceptable when it is consistent: the same history must refuse again
+        k2, _ = core.outcome(_late_condition, ctx, cfg, d, mode, A, B)
+        ctx.count("latedim_refusals_checked")
+        if kind == "crashed" or k2 == "value":
+            ctx.violation("crash", {**cfg, "exc": type(dc).__name__, "at": "conditioning"}, detail=f"conditioning raised {dc!r}")
+        else:
+            ctx.refused("conditioning", dc)
+        return
+    full_value = np.array(A, dtype=float) + B if (two and spec["additive"]) else (np.array(A, dtype=float) * B if two else np.array(A, dtype=float))
+    direct = cls(**{**fixed, param: full_value}, name="x")
+    ctx.count("latedim_conditioned_checked")
+    # (1) the dimension is the length of what it was conditioned on
+    kd, dim = core.outcome(lambda: int(dc.dim))
+    if kd != "value" or dim != n or int(direct.dim) != n:
+        ctx.violation("conditioned_dim_mismatch", cfg, detail=f"conditioned on a vector of length {n}: dim = {dim!r}, directly built distribution has dim {direct.dim}")
+        return
+    # (2) same generator state => same draws as the directly constructed distribution
+    sample_ok = True
+    for N in (1, 4):
+        k1, a = core.outcome(dc.sample, N, rng=np.random.RandomState(42))
+        b = direct.sample(N, rng=np.random.RandomState(42))
+        ctx.count("conditioned_sampler_checked")
+        if k1 != "value":
+            sample_ok = False
+            ctx.refused("sample after conditioning", a) if k1 == "refused" else ctx.violation("crash", {**cfg, "exc": type(a).__name__, "at": "sample"}, detail=repr(a))
+            continue
+        Aa, Bb = _values(a, N, n), _values(b, N, n)
+        if Aa is None or Bb is None or not np.allclose(Aa, Bb, rtol=1e-12, atol=0):
+            ctx.violation("conditioned_sampler_differs", cfg,
+                          detail=f"sample({N}) after conditioning (dim {n}) differs from the directly constructed distribution under the same generator state"
+                                 + ("" if Aa is None or Bb is None else f"; max diff {np.max(np.abs(Aa - Bb)):.3g}"))
+    # (3) log-density of the conditioned object vs the reference of the fully specified distribution
+    X = np.asarray(direct.sample(3, rng=np.random.RandomState(7)).samples, dtype=float).reshape(n, 3)
+    dens_ok = True
+    for k in range(3):
+        x = X[:, k].copy()
+        want = float(spec["ref"](x))
+        with np.errstate(all="ignore"):
+            kl, got = core.outcome(dc.logd, x)
+        ctx.count("latedim_logpdf_ref_checked")
+        if kl != "value":
+            dens_ok = False
+            if sample_ok:
+                ctx.violation("density_refused_but_sampled", cfg, detail=f"the conditioned distribution samples but logd raises {got!r}")
+            else:
+                ctx.refused("logd after conditioning", got)
+            break
+        if not ctx.close(_f(got), want, rtol=1e-8, atol=1e-9):
+            dens_ok = False
+            ctx.violation("conditioned_density_differs", cfg, detail=f"dim {n}: logd of the conditioned distribution = {_f(got)!r}, reference of the fully specified distribution = {want!r} "
+                                                                      f"(directly built object: {_f(direct.logd(x))!r})")
+            break
+    if not sample_ok:
+        if not dens_ok:
+            ctx.nontrivial()      # refuses both: consistent
+        return
+    # (4) the law of the conditioned object itself
+    T = {"id": (None, None, None), "log": (np.log, np.exp, lambda y: float(np.sum(y)))}
+    if spec["gauss"]:
+        t, ti, lj = T[spec["gauss"]]
+        # covariance incl. off-diagonals read off the scripted stream, against the directly built object ...
+        try:
+            m1, B1, _ = _read_affine(dc, "rng", t or (lambda Z: Z), n)
+            m2, B2, _ = _read_affine(direct, "rng", t or (lambda Z: Z), n)
+            ctx.count("latedim_cov_offdiag_checked")
+            C1, C2 = B1 @ B1.T, B2 @ B2.T
+            if C1.shape != C2.shape or np.max(np.abs(C1 - C2)) > 1e-9 * np.max(np.abs(C2)) or np.max(np.abs(m1 - m2)) > 1e-9 * (1 + np.max(np.abs(m2))):
+                off = C1 - np.diag(np.diag(C1))
+                ctx.violation("sampler_cov_mismatch", {**cfg, "against": "direct"},
+                              detail=f"dim {n}: covariance of the conditioned sampler's affine map differs from the directly built distribution's "
+                                     f"(largest off-diagonal entry {np.max(np.abs(off)) if off.size else 0:.3g}, rank {np.linalg.matrix_rank(C1)} vs {np.linalg.matrix_rank(C2)})")
+        except _StreamShape as e:
+            ctx.inconclusive(f"{cfg}: {e}")
+        # ... and against the object's own log-density
+        if dens_ok and _affine_monitor(ctx, dc, cfg, T=t, T_inv=ti, log_jac=lj):
+            ctx.nontrivial()
+    else:
+        if (n == 5 and mode in ("kw1", "mixed2", "kw_both")) if ctx.tier == "quick" else (n in (2, 5, 80)):
+            nn = {"quick": 25000, "thorough": 100000}[ctx.tier] if n < 50 else 30000
+            seeds = [int(rs.randint(1, 2 ** 31 - 1)) for _ in range(2)]
+            def draw(k, seed):
+                return np.asarray(dc.sample(k, rng=np.random.RandomState(seed)).samples, dtype=float)
+            def slicer(x0, i):
+                def logf(tt):
+                    x = np.array(x0, dtype=float, copy=True); x[i] = tt
+                    with np.errstate(all="ignore"):
+                        return _f(dc.logd(x))
+                return logf
+            coords = sorted(set([0, n // 2, n - 1])) if n > 5 else list(range(n))
+            if dens_ok and _two_stage(ctx, cfg, draw, slicer, spec["lo"], spec["hi"], spec["mom"], nn, coords, seeds):
+                ctx.nontrivial()
+        elif dens_ok:
+            ctx.nontrivial()
+    _rng_monitor(ctx, dc, cfg)
+    _wrapper_monitor(ctx, cuqi, dc, cfg, Ns=(1, 3))
+
 # =========================================================================== user defined
 
 def _run_userdef(case, ctx, cuqi, rs):
@@ -1220,7 +1451,7 @@ def _run_userdef(case, ctx, cuqi, rs):
 # =========================================================================== dispatch
 
 _RUN = {"gauss": _run_gauss, "gmrf": _run_gmrf, "lognormal": _run_lognormal, "normal": _run_normal, "gallery": _run_gallery,
-        "stat": _run_stat, "mhn_direct": _run_mhn_direct, "cond": _run_cond, "userdef": _run_userdef}
+        "stat": _run_stat, "latedim": _run_latedim, "mhn_direct": _run_mhn_direct, "cond": _run_cond, "userdef": _run_userdef}
 
 def run_case(case, ctx):
     import cuqi
